@@ -13,6 +13,8 @@ import json
 import os
 import re
 
+from props import cache_common
+
 BIN = "c02"
 
 
@@ -61,6 +63,11 @@ def run(ctx):
     s2_ok, detail, searched = True, None, None
     if getattr(ctx, "replay", None):
         rp = json.load(open(ctx.replay))
+        if "cache_args" in rp:      # a cache-layer violation (props/cache_common.py)
+            ctx.seed = int(rp.get("seed", ctx.seed))
+            cov.update(cache_common.replay_cache(ctx, "c02-", rp))
+            cov["rule"] = "replay"
+            return ctx.finish("proof", cov)
         rc, out = ctx.harness(BIN, rp["args"], timeout=900)
         print((out or "")[-800:])
         print("\n".join(lines(ctx, "oracle.txt"))[:4000])
@@ -82,20 +89,37 @@ def run(ctx):
         cov["samples"] = [h[:700] for h in hist[:2] + hist[-1:]]
         if any(k == "c02-pause-sequence" for k, *_ in ctx.violations):
             s2_ok, detail = False, "begin_read no longer emits T.register_read, M.get_data_root"
+    # cache layer (part (b) of the design): model Storage/Cache.v <-> PagedCachedFile, plain-array oracle
+    c_ok, c_detail, c_cov, c_searched = cache_common.check_cache(ctx, "c02-", "coherence", 120 if ctx.quick else 1500)
+    cov.update(c_cov)
+    cov["evaluations"] += c_cov.get("cache_programs", 0)
+    cov["distinct_nontrivial"] += c_cov.get("cache_distinct_nontrivial", 0)
+    cov["traces_validated_against_impl"] = cov.get("traces_validated_against_impl", 0) + c_cov.get("cache_programs", 0)
     if (not s2_ok or not s1["ok"]) and not ctx.violations and st is not None:
         rc2, out2 = ctx.harness(BIN, [nh * 8, steps + 10], timeout=2400)
         st2 = parse(out2)
         searched = "directed search: %d longer histories, violations: %s" % (nh * 8, st2["violations"] if st2 else "harness failed")
         if st2:
             collect(ctx, nh * 8, steps + 10, "directed")
+    if not c_ok:
+        s2_ok = False
+        detail = ((str(detail) + " | ") if detail else "") + "cache layer: " + str(c_detail)
+        searched = ((searched + " | ") if searched else "") + (c_searched or "")
     cov["rule"] = ("random histories (write transactions with inserts, range deletes, table deletion, multimap updates, "
                    "large values; commit durable / two-phase / quick-repair / non-durable, abort, drop; ephemeral savepoints and "
                    "restores; compaction attempts; growth over several regions) with up to 6 live readers, 2/5 of them owned "
                    "guards+ranges kept after the handle is dropped; cache sizes 0 / 512 B / 2 KiB / 64 MiB, pages of 512 B; plus "
-                   "27 forced begin_read-split schedules. distinct_nontrivial = histories with >= 2 readers and >= 2 kinds of commit")
+                   "27 forced begin_read-split schedules. distinct_nontrivial = histories with >= 2 readers and >= 2 kinds of commit; "
+                   "plus cache-layer call programs on the real PagedCachedFile vs the extracted model (cache_* keys): page sizes "
+                   "8/16/512/4096, budgets 0 / 1 / 2 / 3+ / 4 / 8 pages / 1 MiB, offsets colliding in one lock stripe, "
+                   "non-durable commits, Clean/None hints inside the usage protocol, every 5th with a reader running while "
+                   "flush() is blocked in its first backend write; a cache program is non-trivial when it has an eviction and "
+                   "a non-durable commit / Clean read served from the write buffer / best-effort writeback")
     cov["trusted_base"] = ["Coq 8.16.1 kernel + vm_compute", "abstract version store (durable COW commits only); C03 idealisation for schedules",
                            "harness/src/bin/c02.rs (sorted-map specification, query set)", "H3 hooks verif_root/verif_reach/verif_snapshot/verif_read_page (read-only)",
-                           "C14 (allocator never hands out an allocated page) is a hypothesis of the model's commit"]
+                           "C14 (allocator never hands out an allocated page) is a hypothesis of the model's commit",
+                           "cache layer: harness/src/bin/cachecorr.rs (recording/failing/blocking backend, plain-array oracle, protocol-abiding generator), "
+                           "hook redb::verif_cache (VCachedFile over the real PagedCachedFile, read-only state picture), ocaml/cache_driver.ml + extraction"]
     return ctx.finish("proof", cov,
                       assumptions=["Conc/Versions.v models durable commits, aborts, pins; non-durable reclaim and restore are validated only",
                                    "thread interleavings inside calls: through the C03 step model and the begin_read-split schedules"],
